@@ -28,6 +28,19 @@ fn c15_keyobj_different_types_never_equal() {
 }
 
 #[kani::proof]
+fn c15_zero_sized_keys_of_different_types_never_equal() {
+  // identity is (concrete type, value) also when the values occupy no memory: references and boxes of different zero-sized types may
+  // share one (dangling) address
+  let (z1, z2) = (Z1, Z2);
+  assert!(!keq(&z1, &z2) && !keq(&z2, &z1));
+  assert!(keq(&z1, &Z1) && keq(&z2, &Z2));
+  let b1: Box<dyn KeyObj> = Box::new(Z1); let b2: Box<dyn KeyObj> = Box::new(Z2);
+  assert!(b1 != b2);
+  assert!(b1 == (&Z1 as &dyn KeyObj).to_owned());
+  assert!(!keq(b1.as_ref(), &z2) && !keq(&z1, b2.as_ref()));
+}
+
+#[kani::proof]
 fn c15_keyobj_wrappers_are_different_types() {
   let x: u8 = kani::any(); let y: u8 = kani::any();
   let a = A(x); let ba = Box::new(A(y)); let ra = Rc::new(A(y)); let aa = Arc::new(A(y));
